@@ -244,6 +244,15 @@ Block(cf) ==
   /\ lost' = (lost \/ ("timeoutU" \in cf /\ pre /\ ~preLate))
   /\ UNCHANGED <<role, upMode, dnMode, eu, ed, d, dl, up, upH, xH, cDb, toB, cUb, suB, viol>>
 
+\* k >= 1 blocks that confirm nothing of interest and during which nothing observable happens (a recorded
+\* run lists them as one event).  Every timing invariant below has the form `condition on the other
+\* variables => bound on h`: holding after the k-th of these blocks it held after each of them.
+Blocks(k) ==
+  /\ k >= 1
+  /\ h' = h + k
+  /\ UNCHANGED <<role, upMode, dnMode, eu, ed, d, dl, up, upH, pre, preLate, dn, dnH, xH, cD, cDb, cDc, toB,
+                 cU, cUb, cUc, suB, suC, lost, viol>>
+
 \* ---------------------------------------------------------------- the property, timing part
 TypeOK ==
   /\ role \in {"none", "final", "fwd"} /\ up \in {"none", "offered", "held", "fulfilled", "failed"}
